@@ -43,6 +43,24 @@ macro_rules! bessel_arm {
     };
 }
 
+/// visitor that may also use the by-reference operator forms and the reference iterators
+pub trait TyVisitorRef {
+    type Out;
+    fn visit<T>(self, dims: &[usize]) -> Self::Out
+    where
+        T: Ty + DualNum<<T as Ty>::F> + num_traits::FloatConst,
+        T: for<'a> std::iter::Sum<&'a T> + for<'a> std::iter::Product<&'a T>,
+        for<'a> &'a T: std::ops::Add<&'a T, Output = T>
+            + std::ops::Sub<&'a T, Output = T>
+            + std::ops::Mul<&'a T, Output = T>
+            + std::ops::Div<&'a T, Output = T>
+            + std::ops::Add<T, Output = T>
+            + std::ops::Sub<T, Output = T>
+            + std::ops::Mul<T, Output = T>
+            + std::ops::Div<T, Output = T>
+            + std::ops::Neg<Output = T>;
+}
+
 pub trait TyVisitor {
     type Out;
     fn visit<T>(self, dims: &[usize]) -> Self::Out
@@ -56,6 +74,12 @@ macro_rules! registry {
             $( TypeInfo { name: $name, kind: Kind::$kind, ndyn: $ndyn, is32: $is32, order: $order, optional: $opt, copy: $copy } ),*
         ];
         pub fn dispatch<V: TyVisitor>(tid: usize, dims: &[usize], v: V) -> V::Out {
+            match tid {
+                $( $id => v.visit::<$t>(dims), )*
+                _ => panic!("HARNESS-BUG: unknown type id {tid}"),
+            }
+        }
+        pub fn dispatch_ref<V: TyVisitorRef>(tid: usize, dims: &[usize], v: V) -> V::Out {
             match tid {
                 $( $id => v.visit::<$t>(dims), )*
                 _ => panic!("HARNESS-BUG: unknown type id {tid}"),
